@@ -25,6 +25,8 @@ from ctmverif import election_pipeline as ep
 RULE = ('unit: every vote table with <= 3 leaves / <= 2 iterations (thorough: '
         '<= 4 leaves / <= 3 iterations, every leaf->child partition); random '
         'vote tables with 1-6 children over 1-9 leaves, 1-12 '
+        'iterations; the real tally + choose_node and pipeline runs with 255..700 '
+        'iterations (vote counter beyond uint8) on confidently mapped cells; 1-12 '
         'iterations, compositions with zeros and ties, n_assignments '
         '1..children+2, correlations in [-1,1]; pipeline: generated mapping '
         'problems biased to flatten / drop_level / 1 iteration / 0 runners-up '
@@ -70,7 +72,7 @@ def gen_unit(rng, i):
     names = rng.sample(TYPE_POOL, k)
     types = list(names) + [rng.choice(names) for _ in range(n_leaves - k)]
     rng.shuffle(types)
-    iters = rng.choice([1, 1, 2, 3, 4, 6, 10, 12])
+    iters = rng.choice([1, 1, 2, 3, 4, 6, 10, 12, 255, 256, 300])
     n_cells = rng.randint(1, 4)
     votes = [composition(rng, iters, n_leaves) for _ in range(n_cells)]
     corr = [[(0.0 if v == 0 else sum(
@@ -214,6 +216,46 @@ def check_unit(ctx, case):
                           'keepRunners ~ choose_node', found=False,
                           model=out, cell=c, order=order)
                 return
+    ctx.traces += 1
+
+
+# ---------------------------------------------------------------------------
+# the REAL tally + choose_node with many iterations (the vote counter crosses
+# the uint8 / uint16 widths); contract only
+# ---------------------------------------------------------------------------
+
+def check_real(ctx, case):
+    from cell_type_mapper.type_assignment import election
+    refs = np.array(case['refs'], dtype=float)
+    query = np.array(case['query'], dtype=float)
+    types = list(case['types'])
+    iters, n_assign = case['iters'], case['n_assign']
+    ctx.count('real:iters-%d' % iters)
+    ctx.case(json.dumps(case, sort_keys=True) if len(set(types)) >= 2
+             else None)
+    rr = eu.RecordingRng(case['seed'])
+    with np.errstate(all='ignore'):
+        res, probs, avg, runners = election.choose_node(
+            query_gene_data=query, reference_gene_data=refs,
+            reference_types=list(types), bootstrap_factor=case['factor'],
+            bootstrap_iteration=iters, rng=rr, n_assignments=n_assign)
+    for c in range(query.shape[0]):
+        ctx.evaluations += 1
+        kept = [t for t in runners[c] if t[1]]
+        p = contract_problems(
+            types, {}, iters, n_assign, str(res[c]), float(probs[c]),
+            float(avg[c]), [str(t[0]) for t in kept],
+            [float(t[2]) for t in kept], [float(t[3]) for t in kept])
+        if p:
+            d = dict(case)
+            d.update(cell=c, winner=str(res[c]), prob=float(probs[c]),
+                     avg=float(avg[c]),
+                     runners=[[str(t[0]), bool(t[1]), float(t[2]),
+                               float(t[3])] for t in runners[c]])
+            ctx.violation('%s/real/choose/%s' % (SIG, p[0][0]),
+                          'cell %d, %d iterations: %s' % (c, iters, p[:4]),
+                          d)
+            return
     ctx.traces += 1
 
 
@@ -462,8 +504,17 @@ def run(ctx):
         check_unit(ctx, case)
         n_ex += 1
     ctx.extra_cov['exhaustive_small_vote_tables'] = n_ex
+    from props import c02
+    for iters in (255, 256, 257, 300, 700):
+        for _ in range(2 if quick else 8):
+            case = c02.gen_many(rng, iters)
+            case['kind'] = 'unit-real'
+            check_real(ctx, case)
     for i in range(150 if quick else 1500):
         check_records(ctx, gen_records(rng, i))
+    for i in range(2 if quick else 12):
+        case = ep.gen_pipeline_case(rng, i, c03_bias=True, many_iters=True)
+        ep.check_pipeline(ctx, case, SIG, do_votes=False, do_c03=True)
     for i in range(70 if quick else 1200):
         case = ep.gen_pipeline_case(rng, i, c03_bias=True)
         ep.check_pipeline(ctx, case, SIG, do_votes=False, do_c03=True)
@@ -476,6 +527,8 @@ def replay(ctx, data, from_corpus=False):
         check_unit(ctx, d)
     elif kind == 'records':
         check_records(ctx, d)
+    elif kind == 'unit-real':
+        check_real(ctx, d)
     elif kind == 'pipeline':
         ep.check_pipeline(ctx, d, SIG, do_votes=False, do_c03=True)
     elif not from_corpus:
